@@ -80,6 +80,7 @@ func (w *World) BuildControllers() {
 	rm := w.Store.RESTMapper()
 	w.Ctrls["os"] = objectsets.NewObjectSetController(w.Client, log, w.Scheme, w.Dyn, w.Uncached, nil, rm)
 	w.Ctrls["cos"] = objectsets.NewClusterObjectSetController(w.Client, log, w.Scheme, w.Dyn, w.Uncached, nil, rm)
+	w.AnnotationActors["ph"], w.AnnotationActors["cph"] = w.AnnotationPhases, w.AnnotationPhases
 	if w.AnnotationPhases {
 		w.Ctrls["ph"] = objectsetphases.NewMultiClusterObjectSetPhaseController(log, w.Scheme, w.Dyn, w.Uncached, "default", w.Client, w.Client, rm)
 		w.Ctrls["cph"] = objectsetphases.NewMultiClusterClusterObjectSetPhaseController(log, w.Scheme, w.Dyn, w.Uncached, "default", w.Client, w.Client, rm)
@@ -447,6 +448,15 @@ func (w *World) SetForceAdoption(on bool) {
 	} else {
 		os.Unsetenv(constants.ForceAdoptionEnvironmentVariable)
 	}
+}
+
+// Reset starts a new scenario inside one trace file: fresh store, fresh controllers.
+func (w *World) Reset(name string) {
+	w.Store = NewStoreLike(w.Store)
+	w.Dyn.Reset()
+	w.SetForceAdoption(false)
+	w.BuildControllers()
+	w.Emit(Event{Actor: "sim", Ev: "Reset", Key: "-", Args: map[string]any{"scenario": name}})
 }
 
 // Quiesced emits the final event carrying the projected end state of every object.
